@@ -125,48 +125,56 @@ class TcpConnection():
     def _set_selector_events_mask(self, mode: Literal["r", "w", "rw"], msg: Any = None) -> None:
         self.lock.acquire()
 
-        #: Outgoing bytes are kept in `data_stream`, guarded by this lock, 
-        #: until the transport thread moves them into `_send_buffer`. While 
-        #: there is anything left to be written the WRITE interest is kept, 
-        #: whoever asks for READ only.
-        if msg:
-            self.data_stream += msg
+        try:
+            #: Outgoing bytes are kept in `data_stream`, guarded by this lock, 
+            #: until the transport thread moves them into `_send_buffer`. While 
+            #: there is anything left to be written the WRITE interest is kept, 
+            #: whoever asks for READ only.
+            if msg:
+                self.data_stream += msg
 
-        if mode == "r" and (self.data_stream or self._send_buffer):
-            mode = "rw"
+            if mode == "r" and (self.data_stream or self._send_buffer):
+                mode = "rw"
 
-        if mode == "r":
-            tcp_connection.debug(f"[Socket-{self.sock_id}] Updating "\
-                                 f"selector events mask [READ]")
+            if mode == "r":
+                tcp_connection.debug(f"[Socket-{self.sock_id}] Updating "\
+                                     f"selector events mask [READ]")
 
-            self.events_mask = selectors.EVENT_READ
-            self.selector.modify(self.sock, self.events_mask)
-            self.write_mode_on.clear()
-            self.read_mode_on.set()
+                self.events_mask = selectors.EVENT_READ
+                self.selector.modify(self.sock, self.events_mask)
+                self.write_mode_on.clear()
+                self.read_mode_on.set()
             
-        elif mode == "w":
-            tcp_connection.debug(f"[Socket-{self.sock_id}] Updating "\
-                                 f"selector events mask [WRITE]")
+            elif mode == "w":
+                tcp_connection.debug(f"[Socket-{self.sock_id}] Updating "\
+                                     f"selector events mask [WRITE]")
 
-            self.events_mask = selectors.EVENT_WRITE
-            self.selector.modify(self.sock, self.events_mask)
-            self.write_mode_on.set()
-            self.read_mode_on.clear()
+                self.events_mask = selectors.EVENT_WRITE
+                self.selector.modify(self.sock, self.events_mask)
+                self.write_mode_on.set()
+                self.read_mode_on.clear()
 
 
-        elif mode == "rw":
-            tcp_connection.debug(f"[Socket-{self.sock_id}] Updating "\
-                                 f"selector events mask [READ/WRITE]")
+            elif mode == "rw":
+                tcp_connection.debug(f"[Socket-{self.sock_id}] Updating "\
+                                     f"selector events mask [READ/WRITE]")
 
-            self.events_mask = selectors.EVENT_READ | selectors.EVENT_WRITE
-            self.selector.modify(self.sock, self.events_mask)
-            self.write_mode_on.set()
-            self.read_mode_on.set()
+                self.events_mask = selectors.EVENT_READ | selectors.EVENT_WRITE
+                self.selector.modify(self.sock, self.events_mask)
+                self.write_mode_on.set()
+                self.read_mode_on.set()
 
-        else:
-            tcp_connection.debug(f"[Socket-{self.sock_id}] Updating "\
-                                 f"selector events mask: Invalid entry")
-        self.lock.release()
+            else:
+                tcp_connection.debug(f"[Socket-{self.sock_id}] Updating "\
+                                     f"selector events mask: Invalid entry")
+        except KeyError:
+            #: The socket is not registered anymore: the connection is 
+            #: being closed meanwhile.
+            tcp_connection.debug(f"[Socket-{self.sock_id}] There is no "\
+                                 f"such Selector registered")
+
+        finally:
+            self.lock.release()
 
 
     def _write(self) -> None:
